@@ -35,7 +35,7 @@ class C11(BaseCheck):
   REQUIRED_ANCHORS = ANCHORS
   REQUIRED_CLASSES = ('thriftmux', 'kafka', 'adv:duplicate-reply', 'adv:unknown-tag', 'adv:reserved-tag-1',
                       'adv:tag-0', 'adv:huge-tag', 'adv:bitflip-tag', 'error-frame-replies', 'kafka:timeouts', 'tagpool:exhausted', 'tagpool:get-after-refusal', 'direct:bare-messages', 'direct:expired-while-opening', 'direct:retry-from-reply-handler', 'direct:answered-after-expiry-in-queue', 'timeout-before-send', 'timeout-after-send', 're-open',
-                      'tag-reuse')
+                      'tag-reuse', 'yielding-log-handler')
   ASSUMPTIONS = ('a tag counts as answered when the client has read the last byte of any R-frame carrying it '
                  '(known from the simulated socket\'s read offsets)',)
   QUICK_CASES = 720
@@ -452,6 +452,11 @@ class C11(BaseCheck):
     elif idx % 3 == 1:
       self._opening_with_deadlines(env, rng, out, classes)
     ev_start = len(env.events)
+    if idx % 7 == 2:
+      # debug logging through a handler that yields: every log call in the library is a point
+      # where other greenlets run (tag allocation, registration and release all log)
+      env.yielding_logs()
+      classes.add('yielding-log-handler')
     adversarial = rng.random() < 0.5
     n_eps = rng.choice([1, 1, 2])
     conc = rng.choice([1, 3, 8, 20, 40])
